@@ -306,7 +306,7 @@ pub fn run(tier: Tier, seed: u64) -> i32 {
     let h = ZobristHasher::create_zobrist_hasher();
     let starts = workload::start_positions(seed, 60).unwrap_or_default();
     // part a ------------------------------------------------------------------------------------
-    let a_jobs = tier.pick(256usize, 2560);
+    let a_jobs = tier.pick(768usize, 2560);
     let results = par::par_map(a_jobs, |j| {
         let mut acc = Acc::new();
         let mut rng = Rng::stream(seed, 10_000 + j as u64);
@@ -345,7 +345,7 @@ pub fn run(tier: Tier, seed: u64) -> i32 {
     let mut rng0 = Rng::stream(seed, 0xB10);
     let lost = lost_positions(&mut rng0, &starts);
     let mut roots_spec: Vec<(usize, usize)> = Vec::new(); // (lost index, cycles)
-    let reps = tier.pick(3usize, 24);
+    let reps = tier.pick(6usize, 24);
     for _ in 0..reps {
         for i in 0..lost.len() {
             for n in [2usize, 3, 4, 5] {
